@@ -130,16 +130,20 @@ def run(tier):
             for j in ((-1, 0) if (tier == "thorough" or k >= W - 1) else (-1,)):
                 cwd = fresh("k%d_%d" % (k, j + 1))
                 del srv.log[:]
-                st1 = zckdltier.run_zckdl(bd, cwd, url, src="A.zck", kill=(k, j))
+                # (not exercised: C04/C11 do not quantify over the process environment, and the shipped tool itself writes its
+                # progress lines into the target when it is started without descriptor 1 - DESIGN.md section 13)
+                nofd, srcn = (), "A.zck"
+                st1 = zckdltier.run_zckdl(bd, cwd, url, src=srcn, kill=(k, j), nofd=nofd)
                 mid = open(os.path.join(cwd, "B.zck"), "rb").read() if os.path.exists(os.path.join(cwd, "B.zck")) else b""
                 r1 = server.requested_ranges(srv.log, "B.zck"); del srv.log[:]
-                st2 = zckdltier.run_zckdl(bd, cwd, url, src="A.zck")
+                st2 = zckdltier.run_zckdl(bd, cwd, url, src=srcn, nofd=nofd)
                 fin = open(os.path.join(cwd, "B.zck"), "rb").read() if os.path.exists(os.path.join(cwd, "B.zck")) else b""
                 r2 = server.requested_ranges(srv.log, "B.zck")
                 cid = "zk%d" % zk; zk += 1
-                name = "zckdl %s: killed at target write %d/%d after %s bytes, then run again" % (label, k, W, "all" if j == -1 else "0")
-                ev1 = zckdltier.tool_event(B, hB, A, T0 or b"", mid, r1, 99 if st1 == 99 else (st1 if isinstance(st1, int) else 98))
-                ev2 = zckdltier.tool_event(B, hB, A, mid, fin, r2, st2, must=True)          # the restart runs undisturbed: it has to converge
+                name = "zckdl %s%s: killed at target write %d/%d after %s bytes, then run again" % (label, (" (started without descriptors %s%s)" % (",".join(map(str, nofd)), "" if srcn else ", no local source")) if nofd else "", k, W, "all" if j == -1 else "0")
+                Ause = A if srcn else None
+                ev1 = zckdltier.tool_event(B, hB, Ause, T0 or b"", mid, r1, 99 if st1 == 99 else (st1 if isinstance(st1, int) else 98))
+                ev2 = zckdltier.tool_event(B, hB, Ause, mid, fin, r2, st2, must=True)          # the restart runs undisturbed: it has to converge
                 for ev in (ev1, ev2):
                     ev["name"] = name
                 trace.append({"op": "begin", "name": name, "scenario": name}); owner.append(cid)
